@@ -214,6 +214,41 @@ def _trivial_body(f: FuncInfo) -> bool:
     return not b or (len(b) == 1 and isinstance(b[0], (ast.Pass, ast.Raise)) or (len(b) == 1 and isinstance(b[0], ast.Return) and (b[0].value is None or isinstance(b[0].value, ast.Constant))))
 
 
+def _bool_leaves(t):
+    if isinstance(t, ast.BoolOp):
+        for v in t.values:
+            yield from _bool_leaves(v)
+    elif isinstance(t, ast.UnaryOp) and isinstance(t.op, ast.Not):
+        yield from _bool_leaves(t.operand)
+    else:
+        yield t
+
+
+def _numeric_use(f, prm):
+    """is the parameter a number?  Evidence: its None-fallback is a number (`p = x.shape[0]`, `len(x)`, a numeric literal), it is combined arithmetically or compared
+    with a numeric literal, or it is handed to range()/int()/float()/a seeding call.  (Arithmetic with arbitrary operands is no evidence: factors overload * and /.)"""
+    def _numexpr(e):
+        if isinstance(e, ast.Constant) and isinstance(e.value, (int, float)) and not isinstance(e.value, bool):
+            return True
+        if isinstance(e, ast.Subscript) and isinstance(e.value, ast.Attribute) and e.value.attr == "shape":
+            return True
+        if isinstance(e, ast.Call) and call_name(e) in ("len", "int", "float"):
+            return True
+        return False
+    for n in walk_no_nested(f.node):
+        if isinstance(n, ast.Assign) and len(n.targets) == 1 and isinstance(n.targets[0], ast.Name) and n.targets[0].id == prm and _numexpr(n.value):
+            return True
+        if isinstance(n, ast.BinOp) and isinstance(n.op, (ast.Mult, ast.Div, ast.FloorDiv, ast.Sub, ast.Pow, ast.Mod, ast.Add)):
+            if (isinstance(n.left, ast.Name) and n.left.id == prm and _numexpr(n.right)) or (isinstance(n.right, ast.Name) and n.right.id == prm and _numexpr(n.left)):
+                return True
+        if isinstance(n, ast.Compare) and isinstance(n.left, ast.Name) and n.left.id == prm and not isinstance(n.ops[0], (ast.Is, ast.IsNot, ast.In, ast.NotIn)) \
+                and any(isinstance(c, ast.Constant) and isinstance(c.value, (int, float)) and not isinstance(c.value, bool) for c in n.comparators):
+            return True
+        if isinstance(n, ast.Call) and (call_name(n) in ("range", "int", "float", "seed", "default_rng", "PCG64", "RandomState")) and any(isinstance(a, ast.Name) and a.id == prm for a in n.args):
+            return True
+    return False
+
+
 def defuse_rule(rc, files: List[str]):
     """Every parameter of a function in the anchored files is read somewhere in its body — a parameter that is accepted and
     ignored silently breaks the behaviour it is documented to control.  (A companion "dead local" detector was tried and
@@ -249,6 +284,29 @@ def defuse_rule(rc, files: List[str]):
                 rc.fail(f, f.node, f"{f.qual}: parameter `{p}` is accepted but never read — whatever it is documented to control is silently ignored",
                         construct=f"{f.qual} ignores parameter {p}")
     rc.ob(f"{n_f} function bodies in {len(files)} anchored file(s): every parameter is read")
+    # an optional NUMBER (default None; used in arithmetic, compared with a number, given to range()/int()/a seeding call) is tested with `is None`: `if not p`
+    # also fires for the legitimate value 0 and silently replaces it by the default
+    n_num = 0
+    for rel in files:
+        mod = repo.modules[rel]
+        for f in list(mod.functions.values()) + [m for c in mod.classes.values() for m in c.methods.values()]:
+            for prm in f.params:
+                d = f.param_default(prm)
+                if not (isinstance(d, ast.Constant) and d.value is None):
+                    continue
+                if not _numeric_use(f, prm):
+                    continue
+                n_num += 1
+                for n in walk_no_nested(f.node):
+                    if isinstance(n, (ast.If, ast.IfExp, ast.While)):
+                        for leaf in _bool_leaves(n.test):
+                            if isinstance(leaf, ast.Name) and leaf.id == prm:
+                                rc.fail(f, n.test, f"{f.qual}: the optional number `{prm}` is tested by truthiness (`{norm(n.test, 50)}`): the legitimate value 0 is treated as 'not given'",
+                                        construct=f"{f.qual} truthiness of number {prm}")
+                    if isinstance(n, ast.BoolOp) and isinstance(n.op, ast.Or) and isinstance(n.values[0], ast.Name) and n.values[0].id == prm and not isinstance(getattr(n, "_parent", None), (ast.If, ast.While, ast.IfExp)):
+                        rc.fail(f, n, f"{f.qual}: `{norm(n, 50)}` replaces the legitimate value 0 of the optional number `{prm}` by the default",
+                                construct=f"{f.qual} truthiness of number {prm}")
+    rc.ob(f"{n_num} optional numeric parameter(s) (default None): none tested by truthiness")
     for rel in files:
         rc.ob(f"scanned {rel}")
 
@@ -844,3 +902,49 @@ def fresh_helper_nodes(rc, funcs):
                             construct=f"{f.qual} helper node name needs str()")
     if n_sites < len(funcs):
         raise AnalysisError(f"virtual evidence: expected a helper-node site in each of {[f.qual for f in funcs]}, found {n_sites}")
+
+
+# ------------------------------------------------------------------------------------------------
+LOSSLESS_CASTS = {"float", "float64", "category", "object", "str"}
+
+
+def preprocess_rule(rc):
+    """`preprocess_data` runs in front of every estimator, score and CI test.  What the statistics see must be the caller's data: the function works on a copy, and
+    every column it rewrites is derived from THE SAME column by a value-preserving cast (`df[c] = df[c].astype("float" | "category")`).  A narrower numeric type
+    merges distinct integer labels (float32 above 2**24); a column rebuilt through a new DataFrame/Series without the frame's index is re-aligned on row labels
+    (shuffled or filtered rows get the values of other rows / NaN)."""
+    repo = rc.repo
+    f = repo.module("pgmpy/utils/utils.py").functions.get("preprocess_data")
+    if f is None:
+        raise AnalysisError("preprocess_data vanished")
+    df = f.params[0]
+    first = f.body[0]
+    copied = isinstance(first, ast.Assign) and norm(first.targets[0]) == df and norm(first.value) in (f"{df}.copy()", f"{df}.copy(deep=True)")
+    rc.ob(f"preprocess_data works on a copy: {copied}")
+    if not copied:
+        rc.fail(f, first, "preprocess_data must start from a copy of the caller's frame", construct="preprocess_data copy")
+    n = 0
+    for st in walk_no_nested(f.node):
+        if not (isinstance(st, ast.Assign) and isinstance(st.targets[0], ast.Subscript) and norm(st.targets[0].value) == df):
+            continue
+        n += 1
+        key = norm(st.targets[0].slice)
+        v = st.value
+        ok = isinstance(v, ast.Call) and call_name(v) == "astype" and isinstance(v.func, ast.Attribute) and norm(v.func.value) == f"{df}[{key}]" and len(v.args) == 1
+        rc.ob(f"preprocess_data: `{norm(st, 80)}`")
+        if not ok:
+            if any(isinstance(c, ast.Call) and call_name(c) in ("DataFrame", "Series", "array", "to_numpy", "values") for c in ast.walk(v)) or \
+                    any(isinstance(c, ast.Attribute) and c.attr == "values" for c in ast.walk(v)):
+                if not any(isinstance(c, ast.Call) and call_name(c) in ("DataFrame", "Series") and norm(kwarg(c, "index") or ast.Constant(value=None)) == f"{df}.index" for c in ast.walk(v)) and \
+                        any(isinstance(c, ast.Call) and call_name(c) in ("DataFrame", "Series") for c in ast.walk(v)):
+                    rc.fail(f, st, f"preprocess_data: `{norm(st, 70)}` assigns a NEW frame/series without the data's index: pandas aligns it on row labels, so a frame whose "
+                            "index is not 0..n-1 (shuffled or filtered rows) gets other rows' values or NaN", construct="preprocess_data re-aligned column")
+                    continue
+            raise AnalysisError(f"preprocess_data: cannot decide whether `{norm(st, 80)}` preserves the column")
+        t = v.args[0]
+        tname = t.value if isinstance(t, ast.Constant) else norm(t)
+        if str(tname) not in LOSSLESS_CASTS and str(tname) not in ("np.float64", "numpy.float64"):
+            rc.fail(f, st, f"preprocess_data: `{norm(st, 70)}` casts to `{tname}`: not value-preserving for integer labels (float32 merges integers above 2**24)",
+                    construct="preprocess_data lossy cast")
+    if n < 2:
+        raise AnalysisError(f"preprocess_data: expected the integer and object column conversions, found {n} column store(s)")
